@@ -1,6 +1,121 @@
-//! Control / exop codecs and async-lane replays (filled in as the lanes are built).
+//! Control / extended-operation codecs (C19) and async-lane replays (scripted in-process peer).
+use crate::{bytes_of, ctrl_json, tree_json, tree_of};
+use ldap3::controls::{self, ControlParser, MakeCritical, RawControl};
+use ldap3::exop::{self, Exop, ExopParser};
 use serde_json::{json, Value};
 
+fn s(v: &Value) -> String {
+    String::from_utf8(bytes_of(v)).expect("utf8 in case file")
+}
+
+fn opt_bytes(v: &Value) -> Option<Vec<u8>> {
+    if v.is_null() { None } else { Some(bytes_of(v)) }
+}
+
+fn raw_json(rc: RawControl) -> Value {
+    json!({"oid": rc.ctype.as_bytes(), "crit": rc.crit, "val": rc.val})
+}
+
+fn exop_json(e: Exop) -> Value {
+    let tags = ldap3::verif_hooks::exop_tags(e.clone());
+    json!({"name": e.name.map(|s| s.into_bytes()), "val": e.val, "tags": tags.iter().map(tree_json).collect::<Vec<_>>()})
+}
+
+fn ctrl_req(case: &Value) -> Value {
+    let kind = case["kind"].as_str().unwrap();
+    let crit = case["critical"].as_bool().unwrap_or(false);
+    macro_rules! fin {
+        ($c:expr) => {
+            if crit { raw_json($c.critical().into()) } else { raw_json($c.into()) }
+        };
+    }
+    match kind {
+        "PagedResults" => fin!(controls::PagedResults { size: case["size"].as_i64().unwrap() as i32, cookie: bytes_of(&case["cookie"]) }),
+        "SyncRequest" => fin!(controls::SyncRequest {
+            mode: if case["mode"].as_u64() == Some(3) { controls::RefreshMode::RefreshAndPersist } else { controls::RefreshMode::RefreshOnly },
+            cookie: opt_bytes(&case["cookie"]),
+            reload_hint: case["reload_hint"].as_bool().unwrap(),
+        }),
+        "PreRead" => raw_json(controls::PreRead::new(case["attrs"].as_array().unwrap().iter().map(s).collect::<Vec<_>>())),
+        "PostRead" => raw_json(controls::PostRead::new(case["attrs"].as_array().unwrap().iter().map(s).collect::<Vec<_>>())),
+        "Assertion" => raw_json(controls::Assertion::new(s(&case["filter"]))),
+        "MatchedValues" => raw_json(controls::MatchedValues::new(s(&case["filter"]))),
+        "ProxyAuth" => raw_json(controls::ProxyAuth { authzid: s(&case["authzid"]) }.into()),
+        "TxnSpec" => { let t = s(&case["txn_id"]); raw_json(controls::TxnSpec { txn_id: &t }.into()) }
+        "ManageDsaIt" => fin!(controls::ManageDsaIt),
+        "RelaxRules" => fin!(controls::RelaxRules),
+        _ => json!({"r": "unknown-kind"}),
+    }
+}
+
+fn exop_req(case: &Value) -> Value {
+    let kind = case["kind"].as_str().unwrap();
+    match kind {
+        "WhoAmI" => exop_json(exop::WhoAmI.into()),
+        "StartTxn" => exop_json(exop::StartTxn.into()),
+        "PasswordModify" => {
+            let (u, o, n) = (opt_bytes(&case["user_id"]).map(|b| String::from_utf8(b).unwrap()), opt_bytes(&case["old_pass"]).map(|b| String::from_utf8(b).unwrap()), opt_bytes(&case["new_pass"]).map(|b| String::from_utf8(b).unwrap()));
+            exop_json(exop::PasswordModify { user_id: u.as_deref(), old_pass: o.as_deref(), new_pass: n.as_deref() }.into())
+        }
+        "EndTxn" => { let t = s(&case["txn_id"]); exop_json(exop::EndTxn { txn_id: &t, commit: case["commit"].as_bool().unwrap() }.into()) }
+        "Raw" => exop_json(Exop { name: opt_bytes(&case["name"]).map(|b| String::from_utf8(b).unwrap()), val: opt_bytes(&case["val"]) }),
+        _ => json!({"r": "unknown-kind"}),
+    }
+}
+
+fn resp(case: &Value) -> Value {
+    let kind = case["kind"].as_str().unwrap();
+    let val = bytes_of(&case["val"]);
+    match kind {
+        "PagedResults" => { let p = controls::PagedResults::parse(&val); json!({"size": p.size, "cookie": p.cookie}) }
+        "SyncState" => { let p = controls::SyncState::parse(&val); json!({"state": format!("{:?}", p.state), "uuid": p.entry_uuid, "cookie": p.cookie}) }
+        "SyncDone" => { let p = controls::SyncDone::parse(&val); json!({"cookie": p.cookie, "refresh_deletes": p.refresh_deletes}) }
+        "ReadEntry" => {
+            let p = controls::ReadEntryResp::parse(&val);
+            let mut attrs: Vec<Value> = p.attrs.iter().map(|(k, v)| json!({"name": k.as_bytes(), "vals": v.iter().map(|s| s.as_bytes().to_vec()).collect::<Vec<_>>()})).collect();
+            let mut bins: Vec<Value> = p.bin_attrs.iter().map(|(k, v)| json!({"name": k.as_bytes(), "vals": v})).collect();
+            attrs.sort_by_key(|v| v["name"].to_string());
+            bins.sort_by_key(|v| v["name"].to_string());
+            json!({"attrs": attrs, "bin_attrs": bins})
+        }
+        "WhoAmI" => json!({"authzid": exop::WhoAmIResp::parse(&val).authzid.as_bytes()}),
+        "StartTxn" => json!({"txn_id": exop::StartTxnResp::parse(&val).txn_id.as_bytes()}),
+        "PasswordModify" => json!({"gen_pass": exop::PasswordModifyResp::parse(&val).gen_pass.as_bytes()}),
+        "SyncInfo" => {
+            let t = tree_of(&case["entry"]);
+            match controls::parse_syncinfo(ldap3::ResultEntry::new(t)) {
+                controls::SyncInfo::NewCookie(c) => json!({"k": "NewCookie", "cookie": c}),
+                controls::SyncInfo::RefreshDelete { cookie, refresh_done } => json!({"k": "RefreshDelete", "cookie": cookie, "flag": refresh_done}),
+                controls::SyncInfo::RefreshPresent { cookie, refresh_done } => json!({"k": "RefreshPresent", "cookie": cookie, "flag": refresh_done}),
+                controls::SyncInfo::SyncIdSet { cookie, refresh_deletes, sync_uuids } => {
+                    let mut u: Vec<Vec<u8>> = sync_uuids.into_iter().collect();
+                    u.sort();
+                    json!({"k": "SyncIdSet", "cookie": cookie, "flag": refresh_deletes, "uuids": u})
+                }
+            }
+        }
+        _ => json!({"r": "unknown-kind"}),
+    }
+}
+
 pub fn run(case: &Value) -> Value {
-    json!({"r": "unknown-cmd", "cmd": case["cmd"]})
+    match case["cmd"].as_str().unwrap_or("") {
+        "ctrl:req" => ctrl_req(case),
+        "exop:req" => exop_req(case),
+        "ctrl:resp" => resp(case),
+        "ctrl:envelope" => {
+            // build_tag for each control, wrap as [0], encode inside a message and decode it again
+            let ctrls: Vec<RawControl> = case["ctrls"].as_array().unwrap().iter().map(|c| RawControl {
+                ctype: s(&c["oid"]), crit: c["crit"].as_bool().unwrap(), val: opt_bytes(&c["val"]) }).collect();
+            let mut buf = bytes::BytesMut::new();
+            let op = lber::structures::Tag::StructureTag(tree_of(&json!({"cl": 1, "id": 1, "c": []})));
+            ldap3::verif_hooks::encode(1, op, Some(ctrls), &mut buf).unwrap();
+            let wire = buf.to_vec();
+            match ldap3::verif_hooks::decode(&mut buf) {
+                Ok(Some((_, _, cs))) => json!({"wire": wire, "ctrls": cs.iter().map(ctrl_json).collect::<Vec<_>>()}),
+                _ => json!({"wire": wire, "ctrls": null}),
+            }
+        }
+        _ => crate::asyncs::run(case),
+    }
 }
